@@ -56,9 +56,13 @@ def check_C02(c):
     cases = c.tlc("MC_slice", "slice-full", k1, inv)
     c.replay("slice-full", cases, dtypes="sizes", pals="ident", rotate=3 if q else 0)
     # (b) higher ranks: one axis over the complete space, the others over a palette; nesting
-    k2 = dict(base, MinRank=3, MaxRank=3 if q else 4, MaxDim=2, MaxDimHi=2 if q else 3, FullRank=0, Depth=1, WithT=not q)
+    k2 = dict(base, MinRank=3, MaxRank=3 if q else 4, MaxDim=2, MaxDimHi=2, FullRank=0, Depth=1, WithT=not q)
     cases = c.tlc("MC_slice", "slice-hi", k2, inv)
     c.replay("slice-hi", cases, dtypes="sizes", pals="ident", rotate=2 if q else 0)
+    if not q:   # rank 3 with dims up to 3 (rank 4 stays at dims <= 2)
+        k2b = dict(base, MinRank=3, MaxRank=3, MaxDim=3, MaxDimHi=3, FullRank=0, Depth=1, WithT=False, Ctors={S("C")})
+        cases = c.tlc("MC_slice", "slice-r3", k2b, inv)
+        c.replay("slice-r3", cases, dtypes="float64,uint8,string", pals="ident")
     # (c) nested slicing (slice of slice of transpose) to depth 3 over the palette
     k3 = dict(base, MinRank=1, MaxRank=2 if q else 3, MaxDim=3, MaxDimHi=3, FullRank=0, Depth=3, WithT=True, MaxStep=1)
     cases = c.tlc("MC_slice", "slice-nested", k3, inv)
@@ -79,7 +83,10 @@ def check_C03(c):
     ALL = {S("T"), S("UT"), S("Transpose"), S("Materialize"), S("SafeT")}
     # (a) all programs of length <= 2 (quick) / 3 (thorough) for rank <= 3, row- and column-major
     jobs.append(("trans-lo", dict(MinRank=0, MaxRank=3, MaxDim=3, MaxDimHi=3, HiRank=3, Ctors={S("C"), S("F")},
-                                  MaxLen=2 if q else 3, WithSlice=False, PermPalette=False, Alphabet=ALL, BothTargets=not q)))
+                                  MaxLen=2, WithSlice=False, PermPalette=False, Alphabet=ALL, BothTargets=not q)))
+    if not q:
+        jobs.append(("trans-len3", dict(MinRank=2, MaxRank=3, MaxDim=3, MaxDimHi=2, HiRank=3, Ctors={S("C")},
+                                        MaxLen=3, WithSlice=False, PermPalette=False, Alphabet=ALL, BothTargets=False)))
     # (b) axis rolling
     jobs.append(("trans-roll", dict(MinRank=2, MaxRank=3, MaxDim=3, MaxDimHi=3 if not q else 2, HiRank=3, Ctors={S("C")},
                                     MaxLen=2, WithSlice=False, PermPalette=False, Alphabet={S("RollAxis"), S("UT"), S("T")},
